@@ -56,6 +56,14 @@ func OpenMessageErr(b []byte) (Message, error) {
 
 // ParseMessage recursively parses and returns a message.
 func ParseMessage(b []byte) (_ Message, size int, err error) {
+	return parseMessage(b, 0)
+}
+
+func parseMessage(b []byte, depth int) (_ Message, size int, err error) {
+	if depth > maxParseDepth {
+		return Message{}, 0, errParseDepth
+	}
+
 	table, size, err := decode.DecodeMessageTable(b)
 	if err != nil {
 		return Message{}, 0, err
@@ -74,7 +82,7 @@ func ParseMessage(b []byte) (_ Message, size int, err error) {
 			continue
 		}
 
-		if _, _, err = ParseValue(b1); err != nil {
+		if _, _, err = parseValue(b1, depth+1); err != nil {
 			return
 		}
 	}
